@@ -4,6 +4,8 @@ C31  Actions are marked direct only when the user asked for them
 Theorems: GristProps/C31.lean (direct_parallel for every step incl. rollback and finish; flush marks non-direct).
 Tie: model direct list == engine's.  Search: independent classification of every stored action.
 """
+import json
+
 from gx.props import _hist
 
 PROP = "C31"
@@ -38,6 +40,19 @@ def classify(h, rec):
   doc = h.doc
   sch = doc.engine_schema()
   summary_tables = set(t["tableId"] for t in doc.meta("_grist_Tables") if t.get("summarySourceTable"))
+  tname = dict((t["id"], t["tableId"]) for t in doc.meta("_grist_Tables"))
+  crecs = dict((c["id"], c) for c in doc.meta("_grist_Tables_column"))
+  reverse_of = {}
+  for c in crecs.values():
+    r = crecs.get(c.get("reverseCol") or 0)
+    if r:
+      reverse_of[(tname.get(c["parentId"]), c["colId"])] = (tname.get(r["parentId"]), r["colId"])
+
+  class _Rev(dict):
+    def get(self, k, d=(None, None)):
+      return dict.get(self, k, d)
+  reverse_of = _Rev(reverse_of)
+  doc_steps = set(json.dumps(st[1], sort_keys=True) for st in (res.steps or []) if st and st[0] == "doc" and st[-1] == "ok")
   requested = set()
   for ua in rec["actions"]:
     if ua[0] in ("AddRecord", "BulkAddRecord", "UpdateRecord", "BulkUpdateRecord", "RemoveRecord",
@@ -60,11 +75,19 @@ def classify(h, rec):
       # formula results unless the user action itself supplied the column
       supplied = set()
       for ua in rec["actions"]:
-        if ua[1] == tid:
-          for part in ua[2:]:
-            if isinstance(part, dict):
+        for part in ua[2:]:
+          if isinstance(part, dict):
+            if ua[1] == tid:
               supplied.update(part.keys())
-      if cols and all(c in sch[tid] and (sch[tid][c][1] or (sch[tid][c][2] and c not in supplied)) for c in cols):
+            # the other side of a two-way reference: writing it makes the user-action layer write this
+            # column too (reverse adjustment), which is the user's edit, not a formula result
+            supplied.update(c for (t, c) in (reverse_of.get((ua[1], k)) for k in part.keys()) if t == tid)
+      # a data column's cell is a formula result only when the CALCULATION wrote it: an update performed as
+      # a doc action by the user-action layer (reverse adjustment of a two-way reference, reference clean-up
+      # after a removal, ...) is a data write even if the column carries a trigger formula
+      from_doc = json.dumps(a, sort_keys=True) in doc_steps
+      if cols and all(c in sch[tid] and (sch[tid][c][1] or (sch[tid][c][2] and c not in supplied and not from_doc))
+                      for c in cols):
         if flag:
           h._find("C31", "update of formula results marked direct", "%s %s %r" % (name, tid, cols), rec)
         continue
